@@ -21,18 +21,37 @@ def crate_for(repo):
     return d
 
 
-def run_tests(names, repo='/repo', timeout=1800):
+def run_tests(names, repo='/repo', timeout=1800, use_cache=True):
     """returns {name: 'passed'|'failed'|'missing'}"""
     d = crate_for(repo)
     env = dict(os.environ, CARGO_NET_OFFLINE='true')
     res = {}
     cmd = ['cargo', 'test', '--offline', '--no-fail-fast', '--'] + ['--test-threads', '8']
     t0 = time.time()
-    try:
-        p = subprocess.run(cmd, cwd=d, env=env, capture_output=True, text=True, timeout=timeout)
-        out = p.stdout + p.stderr
-    except subprocess.TimeoutExpired:
-        return {'status': 'undecided', 'reason': 'replay timeout', 'results': {}}
+    # the whole replay suite is run at once; its output is cached by the content of every source it is built from (paths relative to
+    # the tree), so the checks of one tree state share one run
+    h = hashlib.sha256()
+    for base, roots in ((repo, [os.path.join(repo, 'contracts'), os.path.join(repo, 'packages')]), (RDIR, [os.path.join(RDIR, 'src'), os.path.join(RDIR, 'tests')])):
+        for root in roots:
+            for dp, dn, fs in sorted(os.walk(root)):
+                dn[:] = sorted(x for x in dn if x not in ('target', 'artifacts', 'schema'))
+                for f in sorted(fs):
+                    if f.endswith(('.rs', '.toml')):
+                        pth = os.path.join(dp, f)
+                        h.update(os.path.relpath(pth, base).encode()); h.update(open(pth, 'rb').read())
+    h.update(open(os.path.join(repo, 'Cargo.lock'), 'rb').read())
+    cdir = os.path.join(VERIF, '.cache'); os.makedirs(cdir, exist_ok=True)
+    cpath = os.path.join(cdir, 'replay-%s.txt' % h.hexdigest()[:24])
+    if use_cache and os.path.isfile(cpath):
+        out = open(cpath).read()
+    else:
+        try:
+            p = subprocess.run(cmd, cwd=d, env=env, capture_output=True, text=True, timeout=timeout)
+            out = p.stdout + p.stderr
+        except subprocess.TimeoutExpired:
+            return {'status': 'undecided', 'reason': 'replay timeout', 'results': {}}
+        if 'test result:' in out and 'could not compile' not in out:
+            open(cpath, 'w').write(out)
     for n in names:
         m = re.search(r'test ' + re.escape(n) + r' \.\.\. (ok|FAILED|ignored)', out)
         res[n] = {'ok': 'passed', 'FAILED': 'failed', 'ignored': 'ignored'}.get(m.group(1)) if m else 'missing'
